@@ -205,6 +205,41 @@ pub fn check(c: &Case) -> CheckResult {
             }
         }
         o.class("also-through-clip-path");
+        // And inside a layer group whose origin is not the surface's (pushed under an offset clip rectangle): the
+        // gradient is positioned by the surface's coordinates, not by the layer's. SrcOver onto the transparent
+        // layer and an opaque pop reproduce the source pixels exactly.
+        let mut d3 = DrawTarget::new(c.w, c.h);
+        d3.push_clip_rect(IntRect::new(IntPoint::new(cx0, cy0), IntPoint::new(c.w, c.h - 1)));
+        d3.push_layer(1.0);
+        d3.set_transform(&to_transform(&c.ctm));
+        let o3 = DrawOptions { blend_mode: BlendMode::SrcOver, alpha: c.alpha, antialias: AntialiasMode::Gray };
+        draw(&mut d3, &o3);
+        d3.pop_layer();
+        d3.pop_clip();
+        let g3 = d3.get_data();
+        for py in 0..c.h {
+            for px in 0..c.w {
+                let i = (py * c.w + px) as usize;
+                let inside = px >= cx0 && py >= cy0 && py < c.h - 1;
+                let want = if inside { got[i] } else { 0 };
+                if g3[i] != want {
+                    return Err(format!(
+                        "{} gradient filled into a layer pushed under the clip rectangle {},{} .. {},{}: pixel ({},{}) is {} but the fill straight onto the surface gives {} there{}",
+                        c.src.kind(),
+                        cx0,
+                        cy0,
+                        c.w,
+                        c.h - 1,
+                        px,
+                        py,
+                        hex(g3[i]),
+                        hex(got[i]),
+                        if inside { "" } else { " (and this pixel is outside the clip)" }
+                    ));
+                }
+            }
+        }
+        o.class("also-inside-offset-layer");
     }
     let (stops, spread) = stops_of(&c.src);
     let a255 = (c.alpha * 255.0 + 0.5) as u32 as f64;
@@ -484,7 +519,7 @@ pub fn property(ctx: &Ctx) -> Property {
     let c = ctx.clone();
     Property {
         id: "C12",
-        rule: "cases: linear (extent >= 1 px), radial (r >= 1), two-circle (first circle strictly inside the second) and sweep gradients built with the Source::new_* constructors, a quarter of them with a further invertible transform of their own composed into the public Source variant by hand (elliptical radial gradients, sheared sweeps; the oracle maps the pixel centre through the inverse CTM and then through that transform); 1-5 stops at strictly increasing positions (gaps >= 0.02, ends not necessarily 0/1) with random unpremultiplied colours or probe ramps; Pad/Repeat/Reflect; global alpha; identity or any invertible CTM, optionally with user space zoomed (units 256, 4096 or 65536 times smaller, or 64 times larger, under a correspondingly scaled CTM); 4..24 px surfaces, rendered with a full-surface Src fill (in half of the cases after an empty layer group or a clear under a clip that come between set_transform and the draw; and again, Src and SrcOver, through a pixel-aligned clip path that cuts off the first columns: same colours inside, nothing outside). Oracle: f64 parameter t per pixel centre (through the inverse CTM) by the statement's definitions, colour = piecewise-linear interpolation of the unpremultiplied stops after the spread map, premultiplied and scaled by alpha; every channel must lie within 4/255 of the range that colour takes for t within 3/255 (+|t|/255 for two-circle and sweep) of the pixel's t; Pad pixels beyond an end all show one identical colour; two-circle pixels without admissible circle are transparent. Non-trivial: >=3 distinct colours on the surface and t spanning >= 0.25; distinct by hash of the case.",
+        rule: "cases: linear (extent >= 1 px), radial (r >= 1), two-circle (first circle strictly inside the second) and sweep gradients built with the Source::new_* constructors, a quarter of them with a further invertible transform of their own composed into the public Source variant by hand (elliptical radial gradients, sheared sweeps; the oracle maps the pixel centre through the inverse CTM and then through that transform); 1-5 stops at strictly increasing positions (gaps >= 0.02, ends not necessarily 0/1) with random unpremultiplied colours or probe ramps; Pad/Repeat/Reflect; global alpha; identity or any invertible CTM, optionally with user space zoomed (units 256, 4096 or 65536 times smaller, or 64 times larger, under a correspondingly scaled CTM); 4..24 px surfaces, rendered with a full-surface Src fill (in half of the cases after an empty layer group or a clear under a clip that come between set_transform and the draw; and again, Src and SrcOver, through a pixel-aligned clip path that cuts off the first columns: same colours inside, nothing outside; and once more with SrcOver into a layer group pushed under an offset clip rectangle, whose origin differs from the surface's). Oracle: f64 parameter t per pixel centre (through the inverse CTM) by the statement's definitions, colour = piecewise-linear interpolation of the unpremultiplied stops after the spread map, premultiplied and scaled by alpha; every channel must lie within 4/255 of the range that colour takes for t within 3/255 (+|t|/255 for two-circle and sweep) of the pixel's t; Pad pixels beyond an end all show one identical colour; two-circle pixels without admissible circle are transparent. Non-trivial: >=3 distinct colours on the surface and t spanning >= 0.25; distinct by hash of the case.",
         assumptions: vec!["sweep pixels within 1.5 px of the centre or within 0.75 px of the angle-0 ray are not judged (angle discontinuity inside the pixel)"],
         parts: vec![part("render", 60_000, 1_000_000, move || strategy(&c), check)],
         min_class_fraction: vec![("render", "src:linear", 0.15), ("render", "src:radial", 0.15), ("render", "src:twocircle", 0.15), ("render", "src:sweep", 0.15), ("render", "spread:reflect", 0.2), ("render", "t>1-seen", 0.3), ("render", "t<0-seen", 0.1), ("render", "linear:horizontal-right-to-left", 0.005), ("render", "linear:vertical", 0.01), ("render", "twocircle:focal-point", 0.02), ("render", "twocircle:centres-share-one-coordinate", 0.03), ("render", "ctm-scale>=1000", 0.05), ("render", "own-transform-in-the-variant", 0.1)],
